@@ -4,8 +4,9 @@
    Proved (level 2, partial): intersection and union through the whole simplifier (Model/MarkerAlg.v: the decorated
    intersection/union with the recursion guard, cnf, dnf, MultiMarker.of, MarkerUnion.of, intersect_simplify,
    union_simplify) have the truth table of "and" / "or" on every environment, for every fuel and guard state —
-   relative to the three premises of Proofs/MarkerAlgProofs.v (exact same-variable merge, sound and symmetric key
-   equality), which are not proved; that is what "_partial" stands for.  The model is tied to the implementation by
+   on every class of clauses that meets the three premises of Proofs/MarkerAlgProofs.v (exact same-variable merge, sound and
+   symmetric key equality on the class); a class meeting them is exhibited, but the class of all parsed clauses is not shown
+   to be one: that is what "_partial" stands for.  The model is tied to the implementation by
    byte-identical text and equal truth tables on every run. *)
 From Coq Require Import List Bool NArith String.
 From PC Require Import Base.Result Model.Generic Model.Marker Model.MarkerAlg Proofs.GenericProofs Proofs.MarkerProofs Proofs.MarkerAlgProofs.
@@ -30,30 +31,55 @@ Theorem C07_invert_union : forall E l inv,
   Forall2 (fun m i => beval E i = negb (beval E m)) l inv -> beval E (MMulti inv) = negb (beval E (MUnion l)).
 Proof. exact invert_union_structure. Qed.
 Print Assumptions C07_invert_union.
-(* MultiMarker(...) / MarkerUnion(...) constructors: splicing nested members and dropping duplicates keeps the meaning,
-   provided equal keys mean equal values (true of every leaf built by SingleMarker.__init__: the constraint is a
-   function of name, operator, value and operand order) *)
-Theorem C07_constructors_sound : forall E,
-  (forall a b, marker_eqb a b = true -> beval E a = beval E b) ->
-  forall l, beval E (mk_union_marker l) = beval E (MUnion l) /\ beval E (mk_multi_marker l) = beval E (MMulti l).
-Proof. intros E H l. split; [apply flatten_union_sound | apply flatten_multi_sound]; exact H. Qed.
+(* MultiMarker(...) / MarkerUnion(...) constructors: splicing nested members and dropping duplicates keeps the meaning, on any
+   class R of clauses on which equal keys mean equal values (G R m: every clause of m is in R) *)
+Theorem C07_constructors_sound : forall E (R : marker -> Prop),
+  (forall x y, is_leaf_like x = true -> is_leaf_like y = true -> R x -> R y -> marker_eqb x y = true -> beval E x = beval E y) ->
+  forall l, Forall (G R) l ->
+    beval E (mk_union_marker l) = beval E (MUnion l) /\ beval E (mk_multi_marker l) = beval E (MMulti l).
+Proof.
+  intros E R K l Gl. pose proof (fun a b Ga Gb => lift_key E R K a Ga b Gb) as HK.
+  split; [exact (proj1 (mk_union_bv E R HK l Gl)) | exact (proj1 (mk_multi_bv E R HK l Gl))].
+Qed.
 Print Assumptions C07_constructors_sound.
 
-(* the full statement: for all environments E, fuel, guard stacks st and markers a b,
+(* The full statement: for all environments E, fuel, guard stacks st and markers a b,
      m_intersect fuel st a b = Ok r -> beval E r = beval E a && beval E b   (and dually for union).
-   Proved relative to the premises key_sound, key_symmetric, merge_sound: *)
-Theorem C07_intersect_union_partial : forall E, key_sound E -> key_symmetric -> merge_sound E ->
-  forall fuel st a b,
-    (forall r, m_intersect fuel st a b = Ok r -> beval E r = beval E a && beval E b) /\
-    (forall r, m_union fuel st a b = Ok r -> beval E r = beval E a || beval E b).
+   Proved on every class R of clauses that is a [clause_class]: equal keys mean equal values, key equality is symmetric,
+   and the merge of two clauses on one variable is exact and stays in the class.  The class is threaded through all
+   seventeen invariants, so the premises are used only on clauses the computation meets; [C07_class_exists] exhibits a
+   class for which all three are proved.  What is NOT proved is that the clauses the parser builds from arbitrary text form
+   such a class: that is where the constraint algebras (C05, C16) and the python_version special cases enter, and where
+   finding D35 lives (the union of two 'not in' substring clauses is not exact). *)
+Theorem C07_intersect_union_partial : forall E R, clause_class E R ->
+  forall fuel st a b, G R a -> G R b ->
+    (forall r, m_intersect fuel st a b = Ok r -> beval E r = beval E a && beval E b /\ G R r) /\
+    (forall r, m_union fuel st a b = Ok r -> beval E r = beval E a || beval E b /\ G R r).
 Proof. exact intersect_union_sound. Qed.
 Print Assumptions C07_intersect_union_partial.
-Theorem C07_nary_partial : forall E, key_sound E -> key_symmetric -> merge_sound E ->
-  forall fuel st args,
-    (forall r, intersection_fn fuel st args = Ok r -> beval E r = forallb (beval E) args) /\
-    (forall r, union_fn fuel st args = Ok r -> beval E r = existsb (beval E) args).
+Theorem C07_nary_partial : forall E R, clause_class E R ->
+  forall fuel st args, Forall (G R) args ->
+    (forall r, intersection_fn fuel st args = Ok r -> beval E r = forallb (beval E) args /\ G R r) /\
+    (forall r, union_fn fuel st args = Ok r -> beval E r = existsb (beval E) args /\ G R r).
 Proof. exact nary_sound. Qed.
 Print Assumptions C07_nary_partial.
-(* the functions do return results on real input (the statements above are not about an empty set of runs) *)
-Example C07_runs : exists r, intersection_fn FUEL ST0 [MUnion [MAny; MEmpty]; MMulti [MAny]] = Ok r.
-Proof. eexists. vm_compute. reflexivity. Qed.
+(* the premises can be met: three concrete clauses on three variables form a class, for every environment *)
+Theorem C07_class_exists : forall E, clause_class E demo_R.
+Proof. exact demo_class. Qed.
+Print Assumptions C07_class_exists.
+(* ... and on markers over that class the simplifier runs and the theorem applies with no premise left *)
+Example C07_runs :
+  let a := nth 0 demo_clauses MAny in let b := nth 1 demo_clauses MAny in let c := nth 2 demo_clauses MAny in
+  exists r, m_intersect FUEL ST0 (MUnion [a; b]) (MMulti [c; MUnion [b; a]]) = Ok r /\
+            forall E, beval E r = beval E (MUnion [a; b]) && beval E (MMulti [c; MUnion [b; a]]).
+Proof.
+  cbv zeta. eexists. split; [vm_compute; reflexivity|]. intros E.
+  assert (G0 : G demo_R (nth 0 demo_clauses MAny)) by (constructor; unfold demo_R; cbn; tauto).
+  assert (G1 : G demo_R (nth 1 demo_clauses MAny)) by (constructor; unfold demo_R; cbn; tauto).
+  assert (G2 : G demo_R (nth 2 demo_clauses MAny)) by (constructor; unfold demo_R; cbn; tauto).
+  destruct (intersect_union_sound E demo_R (demo_class E) FUEL ST0 (MUnion [nth 0 demo_clauses MAny; nth 1 demo_clauses MAny])
+              (MMulti [nth 2 demo_clauses MAny; MUnion [nth 1 demo_clauses MAny; nth 0 demo_clauses MAny]])) as [I _].
+  - constructor. repeat constructor; assumption.
+  - constructor. constructor; [assumption|]. constructor; [|constructor]. constructor. repeat constructor; assumption.
+  - refine (proj1 (I _ _)). vm_compute. reflexivity.
+Qed.
